@@ -19,6 +19,11 @@ CLAIMED = {
             "Trusted: z3; the meta-interpreter (validated per path by re-running the path's model natively and comparing observations); socket stub contract (recv returns <= n bytes, EOF sticky, send accepts 1..len). "
             "Outside: scripts longer than N calls, real kernels, partialData on the fatal-errno path (not documented by the code).",
             "DESIGN.md section 4 C17"),
+    "C06": (E1, "symbolic execution of the real protocol.py encoder/decoder and recv_stub over SocketConnection/receive_data (AST meta-interpreter + z3): symbolic header fields, opaque payload of symbolic length, solver-chosen stream fragmentation; arbitrary symbolic byte strings checked differentially against an independent reference decoder",
+            "(a) for all msgtype/serializer (incl. out of range), seq, 17-bit flags, payload length 0..200 (content opaque), compression on/off under the zlib contract, correlation id present/absent, annotation sets from a key list incl. invalid keys, MAX_MESSAGE_SIZE symbolic, and every fragmentation of the byte stream into CUTS+1 pieces: what SendingMessage builds is decoded by recv_stub into exactly those fields, consuming exactly the message's bytes; the encoder refuses exactly invalid/oversized input. "
+            "(b) for every string of <= N symbolic bytes and every available-prefix length: the decoder accepts iff an independent reference decoder finds a well-formed message whose chunks tile exactly, decoded fields equal the reference's, consumed bytes = 40+declared, oversized messages are refused after exactly 40 bytes, and an accepted message re-encodes to an equivalent one (N=54 quick, 68 thorough).",
+            "Trusted: z3, the meta-interpreter (every explored path is re-run natively on its model and observations compared), the struct model (generated from the format string; validated natively per path), the zlib contract stub (decompress(compress(x))=x, 1<=len<=len(x)+64; other input raises or yields arbitrary bytes). Outside: DEFLATE itself, byte strings longer than N, more than CUTS cut points, annotation keys outside the listed ones in (a).",
+            "DESIGN.md section 4 C06"),
 }
 
 NOT_YET = "check not built yet (build in progress; see DESIGN.md section 7)"
